@@ -7,6 +7,7 @@ import (
 
 	"github.com/btcsuite/btcd/blockchain"
 	"github.com/btcsuite/btcd/btcutil"
+	"github.com/btcsuite/btcd/btcutil/hdkeychain"
 	"github.com/btcsuite/btcd/chaincfg/chainhash"
 	"github.com/btcsuite/btcd/mempool"
 	"github.com/btcsuite/btcd/txscript"
@@ -31,7 +32,15 @@ func genC06(r *core.Rand, p *core.Plan) {
 	for sc := 0; sc < 4; sc++ {
 		p.Ops = append(p.Ops, core.Op{K: "newaddr", A: []int64{int64(sc), 0, 0}})
 	}
-	p.Ops = append(p.Ops, core.Op{K: "newacct", A: []int64{int64(r.Intn(4))}})
+	acctScope := int64(r.Intn(4))
+	if r.Chance(1, 3) {
+		// an account-import preview (always rolled back) in the scope in which
+		// the second account is created next
+		p.Cfg["simnet"] = 1
+		acctScope = []int64{0, 1, 3}[r.Intn(3)]
+		p.Ops = append(p.Ops, core.Op{K: "importdry", A: []int64{acctScope, int64(r.Range(1, 4))}})
+	}
+	p.Ops = append(p.Ops, core.Op{K: "newacct", A: []int64{acctScope}})
 	p.Ops = append(p.Ops, core.Op{K: "newaddr", A: []int64{int64(r.Intn(4)), 1, 0}})
 	p.Ops = append(p.Ops, core.Op{K: "newaddr", A: []int64{int64(r.Intn(4)), 1, 0}})
 	nf := r.Range(4, 10)
@@ -542,4 +551,49 @@ func (x *world) txHeightInWallet(h chainhash.Hash) int32 {
 		return nil
 	})
 	return out
+}
+
+// importdry: ImportAccountDryRun of a foreign account key (a preview that is
+// always rolled back) in the given scope.
+func (rs *runState) importdry(step int, op core.Op) {
+	x := rs.x
+	sc := scopes[int(uint64(op.Arg(0))%uint64(len(scopes)))]
+	var at waddrmgr.AddressType
+	switch sc {
+	case waddrmgr.KeyScopeBIP0084:
+		at = waddrmgr.WitnessPubKey
+	case waddrmgr.KeyScopeBIP0049Plus:
+		at = waddrmgr.NestedWitnessPubKey
+	case waddrmgr.KeyScopeBIP0086:
+		at = waddrmgr.TaprootPubKey
+	default:
+		return
+	}
+	fseed := core.NewRand(core.Mix(x.p.Seed, 0xf0e1)).Bytes(32)
+	k, err := hdkeychain.NewMaster(fseed, x.params)
+	if err != nil {
+		return
+	}
+	for _, i := range []uint32{sc.Purpose + hdkeychain.HardenedKeyStart, sc.Coin + hdkeychain.HardenedKeyStart, hdkeychain.HardenedKeyStart} {
+		if k, err = k.Derive(i); err != nil {
+			return
+		}
+	}
+	xpub, err := k.Neuter()
+	if err != nil {
+		return
+	}
+	n := uint32(op.Arg(1))
+	if n < 1 || n > 5 {
+		n = 2
+	}
+	_, _, _, err = x.w.ImportAccountDryRun("preview", xpub, 0, &at, n)
+	x.env.Count("op.ImportAccountDryRun")
+	x.env.Eff()
+	if err != nil {
+		x.env.Logf("%d importdry err=%v", step, err)
+		return
+	}
+	x.env.Count("probe.account-import-preview")
+	x.env.Logf("%d importdry scope=%d ok", step, sc.Purpose)
 }
